@@ -12,6 +12,9 @@
 #define PRE 16          /* canary bytes before the header */
 #define POST 32         /* payload/canary bytes after the header */
 #define MAXLEN 64
+static int g_off;            /* C15: header starts at a 16-byte boundary + g_off */
+static int g_lite;           /* reduced lattices for the many-worlds sweeps */
+#define HOFF (PRE + g_off)
 
 static int g_thorough;
 static int g_slice = 0, g_nslices = 1;
@@ -22,17 +25,17 @@ static uint8_t canary_byte(int i) { return (uint8_t)(0xC3 ^ (i * 29)); }
 
 static int my_unit(void) { return (int)(g_unit++ % (uint64_t)g_nslices) == g_slice; }
 
-/* object = PRE canary | header(len) | POST canary, in plain heap memory with slack */
-typedef struct { uint8_t raw[PRE + MAXLEN + POST]; int len; } Obj;
+/* object = PRE(+offset) canary | header(len) | POST canary, in plain heap memory with slack */
+typedef struct { uint8_t raw[PRE + 8 + MAXLEN + POST] __attribute__((aligned(16))); int len; } Obj;
 static void obj_fill(Obj* o, int len, uint8_t bg)
 {
     o->len = len;
-    for (int i = 0; i < PRE; i++) o->raw[i] = canary_byte(i);
-    memset(o->raw + PRE, bg, (size_t)len);
-    for (int i = 0; i < POST; i++) o->raw[PRE + len + i] = canary_byte(100 + i);
+    for (int i = 0; i < HOFF; i++) o->raw[i] = canary_byte(i);
+    memset(o->raw + HOFF, bg, (size_t)len);
+    for (int i = 0; i < POST; i++) o->raw[HOFF + len + i] = canary_byte(100 + i);
 }
-static uint8_t* obj_hdr(Obj* o) { return o->raw + PRE; }
-static size_t obj_size(const Obj* o) { return (size_t)(PRE + o->len + POST); }
+static uint8_t* obj_hdr(Obj* o) { return o->raw + HOFF; }
+static size_t obj_size(const Obj* o) { return (size_t)(HOFF + o->len + POST); }
 
 /* ======================================================================= */
 /* C01: reads                                                               */
@@ -83,7 +86,7 @@ static void c01_case(int sub, int fmt, int fld, int path, int bgi, int64_t a, ui
         if (a >= 0) {
             /* a indexes the window: 32 bits before the header, header, 32 bits after */
             int64_t k = a - 32;
-            flip_bit(o.raw, (unsigned)(PRE * 8 + k));
+            flip_bit(o.raw, (unsigned)(HOFF * 8 + k));
         }
     } else {
         ref_set(obj_hdr(&o), (unsigned)R->off, (unsigned)R->w, val);
@@ -96,6 +99,14 @@ typedef void (*valfn)(uint64_t v, void* ctx);
 static void fv_enum(unsigned w, int all_limit, valfn f, void* ctx)
 {
     if (w == 0) { f(0, ctx); return; }
+    if (g_lite) {
+        if (w <= 8) { for (uint64_t v = 0; v <= mask_w(w); v++) f(v, ctx); return; }
+        uint64_t m = mask_w(w);
+        f(0, ctx); f(m, ctx); f(0xA5A5A5A5A5A5A5A5ull & m, ctx); f(0x0123456789ABCDEFull & m, ctx);
+        for (unsigned i = 0; i < w; i++) { f(1ull << i, ctx); f(m ^ (1ull << i), ctx); }
+        for (unsigned pos = 0; pos + 8 <= w; pos += 4) for (uint64_t c = 1; c < 256; c += 2) f(c << pos, ctx);
+        return;
+    }
     if ((int)w <= all_limit) {
         for (uint64_t v = 0; v <= mask_w(w); v++) { f(v, ctx); if (v == ~0ull) break; }
         return;
@@ -119,9 +130,9 @@ static void c01_val(uint64_t v, void* vctx)
 static void c01_generic_case(int q, int off, int bits, int bgi, int64_t a)
 {
     /* window: quadlets q-1 .. q+3 (5 quadlets) inside a 64-byte object */
-    uint8_t raw[PRE + 40 + POST], before[sizeof raw];
+    uint8_t raw[PRE + 8 + 40 + POST] __attribute__((aligned(16))), before[sizeof raw];
     for (size_t i = 0; i < sizeof raw; i++) raw[i] = canary_byte((int)i);
-    uint8_t* pdu = raw + PRE;          /* pdu base = quadlet 0 */
+    uint8_t* pdu = raw + HOFF;          /* pdu base = quadlet 0 */
     memset(pdu, BG[bgi], 40);
     if (a >= 0) flip_bit(pdu, (unsigned)a);       /* a in 0..319 */
     memcpy(before, raw, sizeof raw);
@@ -181,7 +192,7 @@ static void suite_c01(void)
            g_fmts[13].name, g_fmts[13].f[11].name, g_fmts[13].f[11].getter, 8 * g_fmts[13].len + 64, g_fmts[13].f[11].w);
     /* generic shapes */
     static const int qs[3] = {1, 2, 6};   /* window has one spare quadlet before the field's first */
-    for (int qi = 0; qi < 3; qi++) for (int off = 0; off < 32; off++) for (int bits = 0; bits <= 64; bits++) {
+    for (int qi = 0; qi < (g_lite ? 1 : 3); qi++) for (int off = 0; off < 32; off++) for (int bits = 0; bits <= 64; bits++) {
         if (!my_unit()) continue;
         hs_reset();
         int q = qs[qi];
@@ -228,7 +239,7 @@ static void c02_run(const char* cs, int fmt, int fld, int path, Obj* o, uint64_t
     tr_add(fnv(o->raw, obj_size(o), 0));
     if (g_verbose) { char h1[2 * MAXLEN + 1], h2[2 * MAXLEN + 1]; hex(h1, obj_hdr(o), (size_t)o->len); hex(h2, obj_hdr(&exp), (size_t)o->len); printf("OBS C02 %s.%s %s v=%llx after=%s expected=%s\n", F->name, R->name, fn, (unsigned long long)v, h1, h2); }
     if (memcmp(exp.raw, o->raw, obj_size(o))) {
-        int hdr_only = !memcmp(exp.raw, o->raw, PRE) && !memcmp(exp.raw + PRE + o->len, o->raw + PRE + o->len, POST);
+        int hdr_only = !memcmp(exp.raw, o->raw, HOFF) && !memcmp(exp.raw + HOFF + o->len, o->raw + HOFF + o->len, POST);
         /* classify: field bits wrong, other header bits changed, surroundings changed */
         uint64_t stored = ref_get(obj_hdr(o), (unsigned)R->off, (unsigned)R->w);
         Obj tmp = *o;
@@ -257,7 +268,7 @@ static void c02_case(int fmt, int fld, int path, int bgi, int64_t a, uint64_t v)
     const RowFmt* F = &g_fmts[fmt];
     Obj o;
     obj_fill(&o, F->len, BG[bgi]);
-    if (a >= 0) flip_bit(o.raw, (unsigned)(PRE * 8 + a - 32));
+    if (a >= 0) flip_bit(o.raw, (unsigned)(HOFF * 8 + a - 32));
     char cs[160];
     SETCS("C02", 0, (long long)(fmt), (long long)(fld), (long long)(path), (long long)(bgi), (long long)((long long)a), (long long)((unsigned long long)v));
     c02_run(cs, fmt, fld, path, &o, v);
@@ -277,6 +288,7 @@ static void sv_small(unsigned w, valfn f, void* ctx)
     /* wider than the field */
     if (w < 64) { f(1ull << w, ctx); f((1ull << w) + 1, ctx); f(~m, ctx); f(~m | 1, ctx); }
     f(1ull << 63, ctx); f(~0ull, ctx); f(0x0123456789ABCDEFull, ctx);
+    if (g_lite) return;
     for (unsigned i = 0; i < 64; i++) f(1ull << i, ctx);
 }
 
@@ -311,7 +323,7 @@ static void suite_c02(void)
     sample("C02 Can.can_identifier via Avtp_Can_SetCanIdentifier: prior = background 5A with window bit 131 flipped, v = 0x20000001 (wider than 29 bits); whole object (16 canary + header + 32 trailing bytes) diffed against ref_set, then read back by both readers");
     /* generic writer shapes */
     static const int qs[3] = {1, 2, 6};
-    for (int qi = 0; qi < 3; qi++) for (int off = 0; off < 32; off++) for (int bits = 0; bits <= 64; bits++) {
+    for (int qi = 0; qi < (g_lite ? 1 : 3); qi++) for (int off = 0; off < 32; off++) for (int bits = 0; bits <= 64; bits++) {
         if (!my_unit()) continue;
         hs_reset();
         int q = qs[qi];
@@ -319,13 +331,13 @@ static void suite_c02(void)
         uint64_t vals[8] = {0, m, 0xA5A5A5A5A5A5A5A5ull, 1, ~0ull, bits < 64 ? (1ull << bits) : 2, 0x0123456789ABCDEFull, ~m};
         for (int bgi = 0; bgi < 4; bgi++) for (int vi = 0; vi < 8; vi++) for (int k = -1; k < 320; k++) {
             if (k >= 0 && (k < (q - 1) * 32 || k >= (q + 4) * 32)) continue;
-            uint8_t raw[PRE + 40 + POST], exp[sizeof raw];
+            uint8_t raw[PRE + 8 + 40 + POST] __attribute__((aligned(16))), exp[sizeof raw];
             for (size_t i = 0; i < sizeof raw; i++) raw[i] = canary_byte((int)i);
-            uint8_t* pdu = raw + PRE;
+            uint8_t* pdu = raw + HOFF;
             memset(pdu, BG[bgi], 40);
             if (k >= 0) flip_bit(pdu, (unsigned)k);
             memcpy(exp, raw, sizeof raw);
-            ref_set(exp + PRE, (unsigned)(q * 32 + off), (unsigned)bits, vals[vi] & m);
+            ref_set(exp + HOFF, (unsigned)(q * 32 + off), (unsigned)bits, vals[vi] & m);
             char cs[160];
             SETCS("C02", 2, (long long)(q), (long long)(off), (long long)(bits), (long long)(bgi), (long long)(k), (long long)((unsigned long long)vals[vi]));
             g_cnt.cases++;
@@ -337,7 +349,7 @@ static void suite_c02(void)
             tr_add(fnv(raw, sizeof raw, 0));
             if (faulted || memcmp(exp, raw, sizeof raw)) {
                 char key[128]; snprintf(key, sizeof key, "generic-writer off=%d bits=%d %s", off, bits, faulted ? "fault" : "image");
-                char h1[81], h2[81]; hex(h1, pdu, 40); hex(h2, exp + PRE, 40);
+                char h1[81], h2[81]; hex(h1, pdu, 40); hex(h2, exp + HOFF, 40);
                 violation("C02", key, cs, "v=0x%llx after=%s expected=%s", (unsigned long long)vals[vi], h1, h2);
             }
         }
@@ -350,13 +362,13 @@ static void replay_c02(int sub, long long p[8])
     if (sub == 0) c02_case((int)p[0], (int)p[1], (int)p[2], (int)p[3], p[4], (uint64_t)p[5]);
     else {
         int q = (int)p[0], off = (int)p[1], bits = (int)p[2], bgi = (int)p[3], k = (int)p[4];
-        uint8_t raw[PRE + 40 + POST];
+        uint8_t raw[PRE + 8 + 40 + POST] __attribute__((aligned(16)));
         for (size_t i = 0; i < sizeof raw; i++) raw[i] = canary_byte((int)i);
-        memset(raw + PRE, BG[bgi], 40);
-        if (k >= 0) flip_bit(raw + PRE, (unsigned)k);
-        char h1[81]; hex(h1, raw + PRE, 40); printf("OBS C02 generic before=%s\n", h1);
-        w_gset((uint64_t)q, (uint64_t)off, (uint64_t)bits, raw + PRE, (uint64_t)p[5]);
-        hex(h1, raw + PRE, 40); printf("OBS C02 generic after =%s\n", h1);
+        memset(raw + HOFF, BG[bgi], 40);
+        if (k >= 0) flip_bit(raw + HOFF, (unsigned)k);
+        char h1[81]; hex(h1, raw + HOFF, 40); printf("OBS C02 generic before=%s\n", h1);
+        w_gset((uint64_t)q, (uint64_t)off, (uint64_t)bits, raw + HOFF, (uint64_t)p[5]);
+        hex(h1, raw + HOFF, 40); printf("OBS C02 generic after =%s\n", h1);
     }
 }
 
@@ -368,7 +380,8 @@ int main(int argc, char** argv)
     const char* cs = NULL;
     for (int i = 1; i < argc; i++) {
         if (!strcmp(argv[i], "--suite")) g_suite = argv[++i];
-        else if (!strcmp(argv[i], "--tier")) g_thorough = !strcmp(argv[++i], "thorough");
+        else if (!strcmp(argv[i], "--tier")) { i++; g_thorough = !strcmp(argv[i], "thorough"); g_lite = !strcmp(argv[i], "lite"); }
+        else if (!strcmp(argv[i], "--off")) g_off = atoi(argv[++i]) & 7;
         else if (!strcmp(argv[i], "--slice")) sscanf(argv[++i], "%d/%d", &g_slice, &g_nslices);
         else if (!strcmp(argv[i], "--case")) cs = argv[++i];
     }
